@@ -228,8 +228,43 @@ func execTape(t *testing.T, sc Scenario, tape *verifsim.Tape, st *Stats, prop, t
 			panic(r)
 		}
 	}()
+	before := raceLogSize()
 	v = sc(rc)
+	if after := raceLogSize(); after > before && v == nil {
+		v = &Violation{Class: "data-race", Key: "data-race", Detail: "the race detector reported during this run:\n" + trunc(raceLogTail(after-before), 6000)}
+	}
 	return
+}
+
+// The race detector writes its reports to GORACE's log_path.<pid>; a report that
+// appears while a run executes belongs to that run.
+func raceLogFile() string {
+	for _, f := range strings.Fields(os.Getenv("GORACE")) {
+		if strings.HasPrefix(f, "log_path=") {
+			return fmt.Sprintf("%s.%d", strings.TrimPrefix(f, "log_path="), os.Getpid())
+		}
+	}
+	return ""
+}
+
+func raceLogSize() int64 {
+	if f := raceLogFile(); f != "" {
+		if st, err := os.Stat(f); err == nil {
+			return st.Size()
+		}
+	}
+	return 0
+}
+
+func raceLogTail(n int64) string {
+	b, err := os.ReadFile(raceLogFile())
+	if err != nil {
+		return ""
+	}
+	if int64(len(b)) > n {
+		b = b[int64(len(b))-n:]
+	}
+	return string(b)
 }
 
 // shrink minimises a failing tape while the same violation class persists.
@@ -394,7 +429,7 @@ func RunWorker(t *testing.T) {
 		st.Violations++
 		rec := append([]uint32(nil), tape.Recorded()...)
 		min := rec
-		if os.Getenv("VERIF_NOSHRINK") == "" {
+		if os.Getenv("VERIF_NOSHRINK") == "" && v.Class != "data-race" { // the detector reports each race once per process
 			min = shrink(t, sc, rec, v.Class, prop, tier, 45*time.Second)
 		}
 		// re-run the minimised tape to record the detail it produces
